@@ -22,6 +22,9 @@ func C12(c *Ctx) {
 	r.Rule("C12-c", "the 'no match found' error is added under !ok && len(*p.errs)==0 at p.maxFailPos; the expected list comes from a map filled from p.maxFailExpected (dedup), \"!.\" is replaced by a trailing \"EOF\", and sort.Strings precedes listJoin/addErrAt")
 	r.Rule("C12-d", "failAt acts only when fail == p.maxFailInvertExpected; returns on an earlier offset; on a later offset replaces maxFailPos and truncates maxFailExpected; prefixes ! iff inverted; appends the label; nobody else writes maxFailPos/maxFailExpected")
 
+	r.Rule("C12-e", "the label a terminal reports is the terminal as written: builder.writeLitMatcher / writeCharClassMatcher emit `want:` from the node's own text (the quoted literal value as written plus the i suffix; the class text) - see C01-d for the pairing table")
+	builderPairingN(c, "C12-e", "writeLitMatcher")
+	builderPairingN(c, "C12-e", "writeCharClassMatcher")
 	abs := c.allAbs()
 	r.Min("semantic variants analysed", 16, len(abs))
 	for _, a := range abs {
@@ -236,7 +239,9 @@ func c12c(c *Ctx, v *variants.Variant) {
 	var bad []string
 	n := 0
 	for _, p := range paths {
-		iErr := p.evIndex("call", 0, func(t string) bool { return strings.HasPrefix(t, "p.addErrAt(") && strings.Contains(t, "no match found") })
+		iErr := p.evIndex("call", 0, func(t string) bool {
+			return strings.HasPrefix(t, "p.addErrAt(") && strings.Contains(t, "no match found")
+		})
 		if iErr < 0 {
 			continue
 		}
@@ -292,6 +297,14 @@ func c12c(c *Ctx, v *variants.Variant) {
 		}
 		knownAbsentBeforeLoop := iLoop >= 0 && before[:iLoop].holds("!ok("+setVar+"[\"!.\"])")
 		excluded := (iDel > iFill && iLoop >= 0 && iDel < iLoop) || guarded || skipPath || knownAbsentBeforeLoop
+		if iFill < 0 {
+			// the same list by the slices idiom: copy, sort, compact (adjacent duplicates of a sorted list are all
+			// duplicates), find the marker by binary search in the sorted list, cut it out and append EOF
+			if probs, isIdiom := expectedListBySlices(before, list); isIdiom {
+				bad = append(bad, probs...)
+				continue
+			}
+		}
 		switch {
 		case iFill < 0:
 			bad = append(bad, "the expected labels are not de-duplicated through a set")
@@ -441,4 +454,47 @@ func c12d(c *Ctx, v *variants.Variant) {
 		})
 	}
 	r.Check(len(others) == 0, "C12-d", "T.maxFail*:writers", vn, "builder/static_code.go", "only failAt (and the newParser literal)", "also written in "+strings.Join(others, ","))
+}
+
+// expectedListBySlices recognises copy → sort → compact → marker handling on a path (events before the error is
+// recorded) and reports what is missing; isIdiom=false when the list is not built this way at all.
+func expectedListBySlices(before bpath, list string) (probs []string, isIdiom bool) {
+	src := "p.maxFailExpected"
+	iCopy := before.evIndex("set", 0, func(t string) bool {
+		return t == list+"=slices.Clone("+src+")" || t == list+"=append([]string{},"+src+"...)" || t == list+"=append([]string(nil),"+src+"...)"
+	})
+	if iCopy < 0 {
+		return nil, false
+	}
+	isIdiom = true
+	iSort := before.evIndex("call", iCopy, func(t string) bool { return t == "slices.Sort("+list+")" || t == "sort.Strings("+list+")" })
+	iCompact := before.evIndex("set", iCopy, func(t string) bool { return t == list+"=slices.Compact("+list+")" })
+	switch {
+	case iSort < 0:
+		probs = append(probs, "the copy of the expected labels is not sorted")
+		return
+	case iCompact < iSort:
+		probs = append(probs, "the expected labels are not de-duplicated (slices.Compact must follow the sort: it only removes adjacent duplicates)")
+		return
+	}
+	search := "slices.BinarySearch(" + list + `,"!.")`
+	found, absent := before[iCompact:].holds("res1("+search+")") || before[iCompact:].holds("slices.Contains("+list+`,"!.")`), before[iCompact:].holds("!res1("+search+")") || before[iCompact:].holds("!slices.Contains("+list+`,"!.")`)
+	cut := list + "=append(slices.Delete(" + list + ",res0(" + search + "),res0(" + search + `)+1),"EOF")`
+	iCut := before.evIndex("set", iCompact, func(t string) bool { return t == cut })
+	// nothing else rearranges the list after it was sorted and compacted
+	for i := iCompact + 1; i < len(before); i++ {
+		e := before[i]
+		if e.Kind == "set" && strings.HasPrefix(e.Text, list+"=") && i != iCut {
+			probs = append(probs, "the list is modified after it was sorted and de-duplicated: "+abbreviate(e.Text))
+		}
+	}
+	switch {
+	case !found && !absent:
+		probs = append(probs, "the error is built without testing whether the end-of-input marker is among the failures")
+	case found && iCut < 0:
+		probs = append(probs, "the end-of-input marker \"!.\" must be removed from the list and appended as EOF after sorting")
+	case absent && iCut >= 0:
+		probs = append(probs, "EOF is reported although the end-of-input marker was not among the failures")
+	}
+	return
 }
